@@ -16,6 +16,8 @@ import Poulpy.Lemmas.HeadRoom
 import Poulpy.Lemmas.TensorCols
 import Poulpy.Lemmas.TensorValue
 import Poulpy.Lemmas.MulCompose
+import Poulpy.Lemmas.RelinCross
+import Poulpy.Lemmas.MulNoise
 import Poulpy.Props.C02
 import Poulpy.Props.C07
 
@@ -1669,5 +1671,746 @@ example : ∃ T res, tensorApply false false 1 exTsk.base2k 2 4 4 [[[3], [0]], [
     (Ks.entry_length exTsk.toPMat 1 rfl (by decide +kernel)) (by decide) (by decide) (by decide)
     (by intro i _ r _; exact (add_sub_cancel _ _).symm)
   exact ⟨T, res, h1, h2, h3⟩
+
+/-! ## Tensor accumulator head-room derived from balanced digits -/
+
+/-- balanced digit range `[−2^(b−1), 2^(b−1))` -/
+def Bal (b : Nat) (x : Int) : Prop := -(2 ^ (b - 1)) ≤ x ∧ x < 2 ^ (b - 1)
+
+instance (b : Nat) (x : Int) : Decidable (Bal b x) := by unfold Bal; infer_instance
+
+/-- **masking keeps a balanced digit balanced**: `cnv_prepare_*` clears low bits (rounds toward `−∞` to a multiple of `2^s`, `s < b`), and
+`−2^(b−1)` is such a multiple -/
+theorem mask_balanced (b k : Nat) (hb1 : 1 ≤ b) (hb : b ≤ 62) (x : Int) (hx : Bal b x) : Bal b (Hal.maskCoeff (msbMaskBottomLimb b k) x) := by
+  unfold Bal at hx ⊢
+  have hp : (2 : Int) ^ (b - 1) ≤ 2 ^ 61 := pow_le_pow_right₀ (by norm_num) (by omega)
+  rw [mask_keeps_top_bits b k (by omega) x (by linarith) (by linarith)]
+  by_cases h : k % b = 0
+  · simp only [h, if_true]; exact hx
+  · simp only [h, if_false]
+    have hkb : k % b < b := Nat.mod_lt _ (by omega)
+    set s := b - k % b with hs
+    have hs1 : s ≤ b - 1 := by omega
+    have hpow : (2 : Int) ^ (b - 1) = 2 ^ s * 2 ^ (b - 1 - s) := by rw [← pow_add]; congr 1; omega
+    have hp0 : (0 : Int) < 2 ^ s := by positivity
+    have hm0 : (0 : Int) ≤ 2 ^ (b - 1 - s) := by positivity
+    have h1 := Int.emod_nonneg x (ne_of_gt hp0)
+    have h2 := Int.emod_lt_of_pos x hp0
+    have h3 := Int.mul_ediv_add_emod x (2 ^ s)
+    constructor
+    · -- x − x % 2^s = 2^s·(x / 2^s) ≥ −2^s·m
+      have hq : -(2 ^ (b - 1 - s) : Int) ≤ x / 2 ^ s := by
+        by_contra hc
+        push_neg at hc
+        have : x / 2 ^ s + 1 ≤ -(2 ^ (b - 1 - s) : Int) := by omega
+        have h4 : (2 : Int) ^ s * (x / 2 ^ s + 1) ≤ 2 ^ s * (-(2 ^ (b - 1 - s) : Int)) := mul_le_mul_of_nonneg_left this (le_of_lt hp0)
+        nlinarith
+      have : x - x % 2 ^ s = 2 ^ s * (x / 2 ^ s) := by linarith
+      rw [this, hpow]
+      nlinarith
+    · linarith
+
+example : Bal 4 (Hal.maskCoeff (msbMaskBottomLimb 4 6) (-7)) := mask_balanced 4 6 (by decide) (by decide) (-7) (by decide)
+
+theorem bal_abs (b : Nat) (x : Int) (h : Bal b x) : |x| ≤ 2 ^ (b - 1) := by
+  unfold Bal at h; rw [abs_le]; constructor <;> linarith
+
+theorem prepAll_balanced (N b k : Nat) (hb1 : 1 ≤ b) (hb : b ≤ 62) (a : List Col) (sa : Nat)
+    (ha : ∀ x ∈ a, x.length = sa ∧ ∀ l ∈ x, l.length = N) (hbal : ∀ x ∈ a, ∀ l ∈ x, ∀ v ∈ l, Bal b v) (i : Nat) :
+    ∀ l ∈ (prepAll N (msbMaskBottomLimb b k) a).getD i [], PB N (2 ^ (b - 1)) l := by
+  have hp0 : (0 : Int) ≤ 2 ^ (b - 1) := by positivity
+  by_cases hi : i < a.length
+  · have e : (prepAll N (msbMaskBottomLimb b k) a).getD i [] = Hal.cnvPrepareCol N (a[i]).length (msbMaskBottomLimb b k) a[i] := by
+      unfold prepAll
+      simp [List.getD_eq_getElem?_getD, List.getElem?_map, List.getElem?_eq_getElem hi]
+    have hm := List.getElem_mem hi
+    have hx := ha _ hm
+    have hbx := hbal _ hm
+    rw [e]
+    intro l hl
+    unfold Hal.cnvPrepareCol at hl
+    obtain ⟨j, _, rfl⟩ := List.mem_map.mp hl
+    have hlimb : PB N (2 ^ (b - 1)) (limbOr0 N a[i] j) ∧ ∀ v ∈ limbOr0 N a[i] j, v = 0 ∨ Bal b v := by
+      unfold limbOr0
+      rw [List.getD_eq_getElem?_getD]
+      cases hj : (a[i])[j]? with
+      | none =>
+        simp only [Option.getD_none]
+        exact ⟨PB_zero N _ hp0, fun v hv => by simp only [zeroP, List.mem_replicate] at hv; exact Or.inl hv.2⟩
+      | some p =>
+        simp only [Option.getD_some]
+        have hp := List.mem_of_getElem? hj
+        exact ⟨⟨le_of_eq (hx.2 p hp), fun v hv => bal_abs b v (hbx p hp v hv)⟩, fun v hv => Or.inr (hbx p hp v hv)⟩
+    show PB N (2 ^ (b - 1)) (if j + 1 = min (a[i]).length (a[i]).length then (limbOr0 N a[i] j).map (maskCoeff (msbMaskBottomLimb b k))
+      else if j < min (a[i]).length (a[i]).length then limbOr0 N a[i] j else zeroP N)
+    split
+    · refine ⟨by rw [List.length_map]; exact hlimb.1.1, ?_⟩
+      intro v hv
+      obtain ⟨w, hw, rfl⟩ := List.mem_map.mp hv
+      rcases hlimb.2 w hw with h0 | hbw
+      · subst h0
+        exact bal_abs b _ (mask_balanced b k hb1 hb 0 (by unfold Bal; constructor <;> [skip; positivity]; have : (0:Int) ≤ 2 ^ (b-1) := hp0; linarith))
+      · exact bal_abs b _ (mask_balanced b k hb1 hb w hbw)
+    · split
+      · exact hlimb.1
+      · exact PB_zero N _ hp0
+  · have e : (prepAll N (msbMaskBottomLimb b k) a).getD i [] = [] := by
+      unfold prepAll
+      rw [List.getD_eq_getElem?_getD, List.getElem?_eq_none (by simp; omega)]; rfl
+    rw [e]; intro l hl; simp at hl
+
+theorem colAdd_PB (N : Nat) (D : Int) (hD : 0 ≤ D) (x y : Col) (hx : ∀ l ∈ x, PB N D l) (hy : ∀ l ∈ y, PB N D l) :
+    ∀ l ∈ Hal.colAdd N x y, PB N (D + D) l := by
+  intro l hl
+  unfold Hal.colAdd at hl
+  obtain ⟨m, _, rfl⟩ := List.mem_map.mp hl
+  have h1 := limbOr0_PB x m hx hD
+  have h2 := limbOr0_PB y m hy hD
+  refine ⟨by rw [polyAdd_length]; exact le_trans (Nat.min_le_left _ _) h1.1, ?_⟩
+  intro v hv
+  unfold polyAdd at hv
+  obtain ⟨t, ht, rfl⟩ := List.getElem_of_mem hv
+  simp only [List.length_zipWith] at ht
+  simp only [List.getElem_zipWith]
+  have a1 := h1.2 _ (List.getElem_mem (by omega : t < (limbOr0 N x m).length))
+  have a2 := h2.2 _ (List.getElem_mem (by omega : t < (limbOr0 N y m).length))
+  exact (abs_add_le _ _).trans (add_le_add a1 a2)
+
+theorem PB_mono {N : Nat} {D D' : Int} (h : D ≤ D') {l : Poly} (hl : PB N D l) : PB N D' l :=
+  ⟨hl.1, fun v hv => (hl.2 v hv).trans h⟩
+
+/-- **`tensor_apply_decrypts_balanced`** — `tensor_apply_decrypts` with the accumulator head-room DERIVED inside the theorem: operands with
+balanced digits `[−2^(b−1), 2^(b−1))` (what every normalisation of the crate produces for equal radices) stay balanced under the masks
+(`mask_balanced`), the pairwise sums are bounded by `2^b`, every coefficient of every `cnv_apply_dft` by `sb·N·2^b·2^b`
+(`mul_plain_headroom`); the only remaining condition is the decidable `Core.cnvAdmissible bits sb N 2^b 2^b`. -/
+theorem tensor_apply_decrypts_balanced (big128 : Bool) (N rb rs off b : Nat) (a bb : List Col) (aK bK : Nat) (res0 : List Col) (skG : List Poly)
+    (σ : ℕ → Ks.R N) (sa sb cols : Nat) (hN : 0 < N)
+    (hcols : a.length = cols) (hcb : bb.length = cols) (hc1 : 1 ≤ cols)
+    (ha : ∀ x ∈ a, x.length = sa ∧ ∀ l ∈ x, l.length = N) (hbb : ∀ x ∈ bb, x.length = sb ∧ ∀ l ∈ x, l.length = N)
+    (habal : ∀ x ∈ a, ∀ l ∈ x, ∀ v ∈ l, Bal b v) (hbbal : ∀ x ∈ bb, ∀ l ∈ x, ∀ v ∈ l, Bal b v)
+    (hsa : 1 ≤ sa) (hsb : 1 ≤ sb) (hhi : (cnvOffsetSplit b off).1 ≤ sa + sb - 1)
+    (hr0 : res0.length = (cols + 1) * cols / 2)
+    (hrb1 : 1 ≤ rb) (hrb : rb ≤ 61) (hb1 : 1 ≤ b) (hb : b ≤ 62)
+    (hadm : cnvAdmissible (bitsOf big128) sb N (2 ^ b) (2 ^ b))
+    (hskl : skG.length = (cols + 1) * cols / 2 - 1) (hσ0 : σ 0 = 1)
+    (hτ : ∀ i j, i ≤ j → j < cols → 0 < cix cols i j → Ks.ι N (skG.getD (cix cols i j - 1) []) = σ i * σ j) :
+    ∃ T, tensorApply false big128 N rb rs off b a aK bb bK res0 = some T ∧ TensorSpec N rb rs off b a bb aK bK skG σ sa sb cols T := by
+  have hp0 : (0 : Int) ≤ 2 ^ (b - 1) := by positivity
+  have hpb0 : (0 : Int) ≤ 2 ^ b := by positivity
+  have hhalf : (2 : Int) ^ (b - 1) + 2 ^ (b - 1) = 2 ^ b := by
+    have : b = (b - 1) + 1 := by omega
+    conv_rhs => rw [this, pow_succ]
+    ring
+  have hle : (2 : Int) ^ (b - 1) ≤ 2 ^ b := by linarith
+  unfold cnvAdmissible at hadm
+  have hH0 : (0 : Int) ≤ (sb : Int) * ((N : Int) * 2 ^ b * 2 ^ b) := by positivity
+  have haP := fun i => prepAll_balanced N b aK hb1 hb a sa ha habal i
+  have hbP := fun i => prepAll_balanced N b bK hb1 hb bb sb hbb hbbal i
+  apply tensor_apply_decrypts big128 N rb rs off b a bb aK bK res0 skG σ ((sb : Int) * ((N : Int) * 2 ^ b * 2 ^ b)) sa sb cols hN hcols hcb hc1
+    ha hbb hsa hsb hhi hr0 hrb1 hrb hb1 hb hH0 hadm
+  · intro i hic
+    have hlen : ((prepAll N (msbMaskBottomLimb b bK) bb).getD i []).length = sb :=
+      (prepAll_getD N _ bb sb i (by rw [hcb]; exact hic) hbb).1
+    have := cnvApplyCol_bound N (limbBoundWithOffset (sa + sb - (cnvOffsetSplit b off).1) rs rb b (cnvOffsetSplit b off).2) (cnvOffsetSplit b off).1
+      ((prepAll N (msbMaskBottomLimb b aK) a).getD i []) ((prepAll N (msbMaskBottomLimb b bK) bb).getD i []) (2 ^ b) (2 ^ b) hpb0 hpb0
+      (fun l hl => PB_mono hle (haP i l hl)) (fun l hl v hv => ((hbP i l hl).2 v hv).trans hle)
+    rw [hlen] at this
+    exact this
+  · intro i j hij hjc
+    have hic : i < cols := by omega
+    obtain ⟨b1, b2⟩ := prepAll_getD N (msbMaskBottomLimb b bK) bb sb i (by rw [hcb]; exact hic) hbb
+    obtain ⟨b3, b4⟩ := prepAll_getD N (msbMaskBottomLimb b bK) bb sb j (by rw [hcb]; exact hjc) hbb
+    have hlen : (Hal.colAdd N ((prepAll N (msbMaskBottomLimb b bK) bb).getD i []) ((prepAll N (msbMaskBottomLimb b bK) bb).getD j [])).length = sb := by
+      rw [(colAdd_shape N _ _ (by rw [b1, b3]) b2 b4).1, b1]
+    have hx := colAdd_PB N (2 ^ (b - 1)) hp0 _ _ (haP i) (haP j)
+    have hy := colAdd_PB N (2 ^ (b - 1)) hp0 _ _ (hbP i) (hbP j)
+    rw [hhalf] at hx hy
+    have := cnvApplyCol_bound N (limbBoundWithOffset (sa + sb - (cnvOffsetSplit b off).1) rs rb b (cnvOffsetSplit b off).2) (cnvOffsetSplit b off).1
+      (Hal.colAdd N ((prepAll N (msbMaskBottomLimb b aK) a).getD i []) ((prepAll N (msbMaskBottomLimb b aK) a).getD j []))
+      (Hal.colAdd N ((prepAll N (msbMaskBottomLimb b bK) bb).getD i []) ((prepAll N (msbMaskBottomLimb b bK) bb).getD j []))
+      (2 ^ b) (2 ^ b) hpb0 hpb0 hx (fun l hl => (hy l hl).2)
+    rw [hlen] at this
+    exact this
+  · exact hskl
+  · exact hσ0
+  · exact hτ
+
+example : ∃ T, tensorApply false true 1 4 2 4 4 [[[3], [0]], [[1], [0]]] 8 [[[2], [0]], [[1], [0]]] 8 (zeroCols 1 3 2) = some T ∧ T.length = 3 := by
+  obtain ⟨T, h1, h2, _⟩ := tensor_apply_decrypts_balanced true 1 4 2 4 4 [[[3], [0]], [[1], [0]]] [[[2], [0]], [[1], [0]]] 8 8 (zeroCols 1 3 2)
+    [[2], Hal.negMul [2] [2]] (fun i => if i = 0 then 1 else Ks.ι 1 [2]) 2 2 2 (by decide) rfl rfl (by decide)
+    (by decide) (by decide) (by decide) (by decide) (by decide) (by decide) (by decide) (by decide) (by decide) (by decide) (by decide) (by decide)
+    (by decide) (by decide) rfl
+    (by
+      intro i j hij hj hpos
+      have hcases : (i = 0 ∧ j = 1) ∨ (i = 1 ∧ j = 1) := by
+        have hj2 : j < 2 := hj
+        have : ¬ (i = 0 ∧ j = 0) := by
+          rintro ⟨rfl, rfl⟩; simp [cix, colIdx] at hpos
+        omega
+      rcases hcases with ⟨rfl, rfl⟩ | ⟨rfl, rfl⟩
+      · have e : cix 2 0 1 - 1 = 0 := by decide
+        rw [e]; simp
+      · have e : cix 2 1 1 - 1 = 1 := by decide
+        rw [e]
+        show Ks.ι 1 (Hal.negMul [2] [2]) = _
+        rw [Ks.ι_negMul 1 _ _ rfl (by decide)]; simp)
+  exact ⟨T, h1, h2⟩
+
+example : PB 1 4 [3] → PB 1 9 [3] := PB_mono (by decide)
+example : ∀ l ∈ Hal.colAdd 1 [[3], [1]] [[2], [-4]], PB 1 (4 + 4) l :=
+  colAdd_PB 1 4 (by decide) _ _ (by intro l hl; simp at hl; rcases hl with rfl | rfl <;> exact ⟨by decide, by decide⟩)
+    (by intro l hl; simp at hl; rcases hl with rfl | rfl <;> exact ⟨by decide, by decide⟩)
+example : |(-8 : Int)| ≤ 2 ^ (4 - 1) := bal_abs 4 (-8) (by decide)
+example : ∀ l ∈ (prepAll 1 (msbMaskBottomLimb 4 6) [[[3], [-7]]]).getD 0 [], PB 1 (2 ^ (4 - 1)) l :=
+  prepAll_balanced 1 4 6 (by decide) (by decide) [[[3], [-7]]] 2 (by decide) (by decide) 0
+
+/-! ## Any tensor radix: the conversion inside relinearisation discharged -/
+
+/-- **`relin_decrypts_any_radix`** — `glwe_tensor_relinearize` END TO END with the tensor in ANY radix `1..62` (converted column by column into
+the tensor-key radix: `Core.relinearize_cross`, `Core.glweNormalize_total` — exact on the torus under every secret), covered regime
+(`⌈rsT·ab/bg⌉ ≤ min(size, dnum·dsize)`), grouped secret `skG = (s, s⊗s)`, every key digit size, both accumulator widths, head-room derived:
+`2^(ab·rsT+bg·S)·phase_s(res) = 2^(rb·rs)·(2^(bg·S)·phase_{skG}(T) + 2^(ab·rsT)·relinErr) + 2^(ab·rsT)·En + 2^(…)·Q`. -/
+theorem relin_decrypts_any_radix {N : Nat} (big128 : Bool) (rb rs ab rsT : Nat) (T : List Col) (g : GGLWE) (res0 : List Col)
+    (sk skG : List Poly) (E : ℕ → ℕ → Ks.R N) (Hin Da Dm : Int) (hN : 0 < N)
+    (hTlen : T.length = g.colsOut + g.colsIn) (hc1 : 1 ≤ g.colsOut) (hTwf : ∀ c ∈ T, C02L.ColWF N rsT c)
+    (hTb : ∀ c ∈ T, ∀ l ∈ c, ∀ x ∈ l, |x| ≤ Hin) (hH0 : 0 ≤ Hin) (hH : Hin + 8 ≤ 2 ^ 62)
+    (hrb1 : 1 ≤ rb) (hrb : rb ≤ 62) (hab1 : 1 ≤ ab) (hab : ab ≤ 62) (hbt1 : 1 ≤ g.base2k) (hbt : g.base2k ≤ 62)
+    (hDa : if ab = g.base2k then Hin ≤ Da else 2 ^ g.base2k - 1 ≤ Da) (hDm : 0 ≤ Dm)
+    (hadm : prodAdmissible (bitsOf big128) g.dsize g.colsIn g.dnum N Da Dm Da)
+    (hgd : ∀ row ∈ g.cells, ∀ c ∈ row, ∀ l ∈ c, ∀ x ∈ l, |x| ≤ Dm)
+    (hd : 1 ≤ g.dsize) (hn : g.n = N) (h0 : shapeOk g.n g.colsOut g.size res0 = true) (hM : ∀ j q, (g.toPMat.entry j q).length = N)
+    (hS : g.dnum * g.dsize ≤ g.size)
+    (hcov1 : epConvSize rsT ab g.base2k ≤ g.size) (hcov2 : epConvSize rsT ab g.base2k ≤ g.dnum * g.dsize)
+    (hsk : g.colsOut - 1 ≤ sk.length) (hskGl : skG.length = T.length - 1)
+    (hskG1 : ∀ k, k < g.colsOut - 1 → skG.getD k [] = sk.getD k [])
+    (hkey : ∀ i, i < g.colsIn → ∀ r, r < g.dnum →
+      Gadget.val ((2 : Ks.R N) ^ g.base2k) g.size (Ks.keyPhase N sk g.toPMat i r)
+        = 1 * Ks.ι N (skG.getD (g.colsOut - 1 + i) []) * ((2 : Ks.R N) ^ g.base2k) ^ (g.size - (r + 1) * g.dsize) + E i r) :
+    ∃ res T', relinearize big128 N rb rs T ab g g.size res0 = some res ∧
+      relinearize big128 N rb rs T ab g g.size res0 = relinearize big128 N rb rs T' g.base2k g g.size res0 ∧
+      C02L.GWF N (Ks.mkCt rb N res) ∧ (∀ c ∈ res, ∀ l ∈ c, ∀ x ∈ l, |x| ≤ 2 ^ rb - 1) ∧
+      ∃ (En : Poly) (Qr : Ks.R N), En.length = N ∧
+        normInf En ≤ (1 + C02L.snorm (min (g.colsOut - 1) sk.length) sk) * C02.normTol (rb * rs) (g.base2k * g.size) ∧
+        (2 : Ks.R N) ^ (ab * rsT + g.base2k * g.size) * Ks.ι N (C02L.valP rb N (Core.Ops.phase sk (Ks.mkCt rb N res)))
+          = (2 : Ks.R N) ^ (rb * rs) *
+              ((2 : Ks.R N) ^ (g.base2k * g.size) * Ks.ι N (C02L.valP ab N (Core.Ops.phase skG (Ks.mkCt ab N T)))
+                + (2 : Ks.R N) ^ (ab * rsT) * relinErr N sk (relinInput N T' g) g ((2 : Ks.R N) ^ g.base2k) E)
+            + (2 : Ks.R N) ^ (ab * rsT) * Ks.ι N En
+            + (2 : Ks.R N) ^ (ab * rsT + rb * rs + g.base2k * g.size) * Qr := by
+  have hT0 : 0 < T.length := by omega
+  have hTne : T ≠ [] := by intro h; rw [h] at hT0; simp at hT0
+  have hsa0 : (T.getD 0 []).length = rsT := by
+    rw [List.getD_eq_getElem?_getD, List.getElem?_eq_getElem hT0]; exact (hTwf _ (List.getElem_mem hT0)).1
+  set cs := epConvSize rsT ab g.base2k with hcs
+  have hDa0 : 0 ≤ Da := by
+    split at hDa
+    · linarith
+    · have : (1 : Int) ≤ 2 ^ g.base2k := one_le_pow₀ (by norm_num)
+      linarith
+  -- the converted tensor
+  have hconv : ∃ T', relinearize big128 N rb rs T ab g g.size res0 = relinearize big128 N rb rs T' g.base2k g g.size res0 ∧
+      T'.length = T.length ∧ (∀ c ∈ T', C02L.ColWF N cs c) ∧ (∀ c ∈ T', ∀ l ∈ c, ∀ x ∈ l, |x| ≤ Da) ∧
+      ∃ Q1 : Poly, Q1.length = N ∧
+        (2 : Ks.R N) ^ (ab * rsT) * Ks.ι N (C02L.valP g.base2k N (Core.Ops.phase skG (Ks.mkCt g.base2k N T')))
+          = (2 : Ks.R N) ^ (g.base2k * cs) * Ks.ι N (C02L.valP ab N (Core.Ops.phase skG (Ks.mkCt ab N T)))
+            + (2 : Ks.R N) ^ (g.base2k * cs + ab * rsT) * Ks.ι N Q1 := by
+    by_cases hr : ab = g.base2k
+    · have hcs' : cs = rsT := by rw [hcs]; unfold epConvSize; simp [hr]
+      refine ⟨T, by rw [hr], rfl, by rw [hcs']; exact hTwf, ?_, zeroP N, by simp [zeroP], ?_⟩
+      · simp only [hr, if_true] at hDa
+        intro c hc l hl x hx; exact (hTb c hc l hl x hx).trans hDa
+      · rw [hcs', Ks.ι_zero, hr]; ring
+    · have hcs' : cs = (rsT * ab + g.base2k - 1) / g.base2k := by rw [hcs]; unfold epConvSize; simp [hr]
+      obtain ⟨T', h1, h2, h3, h4, h5⟩ := glweNormalize_total N hN T ab g.base2k rsT Hin hTne hTwf hab1 hab hbt1 hbt hH0 hH hTb
+      have h0' : 0 < T'.length := by rw [h2]; exact hT0
+      have hsa' : (T'.getD 0 []).length = (rsT * ab + g.base2k - 1) / g.base2k := by
+        rw [List.getD_eq_getElem?_getD, List.getElem?_eq_getElem h0']; exact (h3 _ (List.getElem_mem h0')).1
+      refine ⟨T', relinearize_cross big128 N rb rs T T' ab g res0 rsT hr hbt1 hsa0 hTlen h1 hsa', h2, by rw [hcs']; exact h3, ?_, ?_⟩
+      · simp only [hr, if_false] at hDa
+        intro c hc l hl x hx; exact (h4 c hc l hl x hx).trans hDa
+      · obtain ⟨Q1, hQ1, he⟩ := h5 skG
+        exact ⟨Q1, hQ1, by rw [hcs']; exact he⟩
+  obtain ⟨T', hrel, hT'len, hT'wf, hT'b, Q1, hQ1, hconvEq⟩ := hconv
+  have hT'len' : T'.length = g.colsOut + g.colsIn := by rw [hT'len, hTlen]
+  have hT'0 : 0 < T'.length := by omega
+  have hri := relinInput_eq N T' g cs hbt1 hT'0 hT'len' hT'wf
+  have hcolT : ∀ k, k < T'.length → C02L.ColWF N cs (T'.getD k []) ∧ ∀ l ∈ T'.getD k [], ∀ v ∈ l, |v| ≤ Da := by
+    intro k hk
+    rw [List.getD_eq_getElem?_getD, List.getElem?_eq_getElem hk]
+    exact ⟨hT'wf _ (List.getElem_mem hk), hT'b _ (List.getElem_mem hk)⟩
+  have hriwf : ∀ c ∈ relinInput N T' g, C02L.ColWF N cs c := by
+    rw [hri]; intro c hc
+    obtain ⟨i, hi, rfl⟩ := List.mem_map.mp hc
+    exact (hcolT _ (by have := List.mem_range.mp hi; omega)).1
+  have hrib : ∀ c ∈ relinInput N T' g, ∀ l ∈ c, ∀ x ∈ l, |x| ≤ Da := by
+    rw [hri]; intro c hc
+    obtain ⟨i, hi, rfl⟩ := List.mem_map.mp hc
+    exact (hcolT _ (by have := List.mem_range.mp hi; omega)).2
+  have hrilen : (relinInput N T' g).length = g.colsIn := by simp [relinInput]
+  have hrish : shapeOk g.n g.colsIn ((relinInput N T' g).getD 0 []).length (relinInput N T' g) = true := by
+    rw [hn]
+    by_cases hci0 : g.colsIn = 0
+    · have : relinInput N T' g = [] := by unfold relinInput; rw [hci0]; rfl
+      rw [this, hci0]; rfl
+    · have h0' : 0 < (relinInput N T' g).length := by rw [hrilen]; omega
+      have e : ((relinInput N T' g).getD 0 []).length = cs := by
+        rw [List.getD_eq_getElem?_getD, List.getElem?_eq_getElem h0']; exact (hriwf _ (List.getElem_mem h0')).1
+      rw [e]
+      exact shapeOk_of_wf N g.colsIn cs _ hrilen hriwf
+  have hPb := relin_headroom N (relinInput N T' g) g res0 Da Dm hDa0 hDm hd hn hrish h0 hrib hgd
+  unfold prodAdmissible at hadm
+  obtain ⟨res, hres, hgwf, hdig, En, Q, hE, hQ, hnm, heq⟩ := relin_decrypts big128 rb rs T' g res0 sk
+    (prodBound g.dsize g.colsIn g.dnum N Da Dm) Da hrb1 hrb hbt1 hbt (prodBound_nonneg _ _ _ _ _ _ hDa0 hDm) hDa0 hadm hPb
+    (fun j hj => (hcolT j (by omega)).1.2) hT'b (fun i => Ks.ι N (skG.getD (g.colsOut - 1 + i) [])) E hd hN hn (by omega) h0 hM hS hkey
+  have hcv := relin_covered_value N hN T' g sk skG (fun i => Ks.ι N (skG.getD (g.colsOut - 1 + i) [])) cs hT'len' hc1 hT'wf hbt1 hd hcov1 hcov2
+    hsk (by rw [hskGl, hT'len]) hskG1 (fun p _ => rfl)
+  refine ⟨res, T', by rw [hrel]; exact hres, hrel, hgwf, hdig, En, Ks.ι N Q + Ks.ι N Q1, hE, hnm, ?_⟩
+  unfold relinErr
+  have hpow : ((2 : Ks.R N) ^ g.base2k) ^ (g.size - cs) * (2 : Ks.R N) ^ (g.base2k * cs) = (2 : Ks.R N) ^ (g.base2k * g.size) := by
+    rw [← pow_mul, ← pow_add]
+    congr 1
+    rw [← Nat.mul_add]; congr 1; omega
+  have e1 : (2 : Ks.R N) ^ (ab * rsT + g.base2k * g.size) = (2 : Ks.R N) ^ (ab * rsT) * (2 : Ks.R N) ^ (g.base2k * g.size) := pow_add _ _ _
+  have e2 : (2 : Ks.R N) ^ (ab * rsT + rb * rs + g.base2k * g.size)
+      = (2 : Ks.R N) ^ (ab * rsT) * (2 : Ks.R N) ^ (rb * rs) * (2 : Ks.R N) ^ (g.base2k * g.size) := by rw [pow_add, pow_add]
+  have e3 : (2 : Ks.R N) ^ (rb * rs + g.base2k * g.size) = (2 : Ks.R N) ^ (rb * rs) * (2 : Ks.R N) ^ (g.base2k * g.size) := pow_add _ _ _
+  have e4 : (2 : Ks.R N) ^ (g.base2k * cs + ab * rsT) = (2 : Ks.R N) ^ (g.base2k * cs) * (2 : Ks.R N) ^ (ab * rsT) := pow_add _ _ _
+  rw [e3] at heq
+  rw [e4] at hconvEq
+  rw [e1, e2]
+  linear_combination ((2 : Ks.R N) ^ (ab * rsT)) * heq
+    + ((2 : Ks.R N) ^ (ab * rsT) * (2 : Ks.R N) ^ (rb * rs)) * hcv
+    + ((2 : Ks.R N) ^ (rb * rs) * ((2 : Ks.R N) ^ g.base2k) ^ (g.size - cs)) * hconvEq
+    + ((2 : Ks.R N) ^ (rb * rs) * Ks.ι N (C02L.valP ab N (Core.Ops.phase skG (Ks.mkCt ab N T)))
+        + (2 : Ks.R N) ^ (ab * rsT) * (2 : Ks.R N) ^ (rb * rs) * Ks.ι N Q1) * hpow
+
+/-- a tensor in radix `2^2` relinearised with the radix-`2^4` key `exTsk` (cross radix), NTT120 accumulator -/
+example : ∃ res, relinearize true 1 4 3 ([[[1], [0], [1], [0]], [[0], [1], [0], [0]], [[1], [1], [0], [0]]] : List Col) 2 exTsk exTsk.size (zeroCols 1 2 3) = some res ∧ C02L.GWF 1 (Ks.mkCt 4 1 res) := by
+  obtain ⟨res, T', h1, _, h3, _⟩ := relin_decrypts_any_radix (N := 1) true 4 3 2 4 ([[[1], [0], [1], [0]], [[0], [1], [0], [0]], [[1], [1], [0], [0]]] : List Col) exTsk (zeroCols 1 2 3) [[2]] [[2], Hal.negMul [2] [2]]
+    (fun i r => Gadget.val ((2 : Ks.R 1) ^ exTsk.base2k) exTsk.size (Ks.keyPhase 1 [[2]] exTsk.toPMat i r)
+      - 1 * Ks.ι 1 (([[2], Hal.negMul [2] [2]] : List Poly).getD (exTsk.colsOut - 1 + i) []) * ((2 : Ks.R 1) ^ exTsk.base2k) ^ (exTsk.size - (r + 1) * exTsk.dsize))
+    1 15 1 (by decide) (by decide) (by decide) (by decide) (by decide) (by decide) (by decide) (by decide) (by decide) (by decide) (by decide)
+    (by decide) (by decide) (by decide) (by decide) (by decide) (by decide +kernel) (by decide) rfl (by decide)
+    (Ks.entry_length exTsk.toPMat 1 rfl (by decide +kernel)) (by decide) (by decide) (by decide) (by decide) (by decide)
+    (by intro k hk; have h0 : k = 0 := by
+          have : k < 1 := hk
+          omega
+        subst h0; rfl)
+    (by intro i _ r _; exact (add_sub_cancel _ _).symm)
+  exact ⟨res, h1, h3⟩
+
+/-- **`glwe_mul_decrypts_any_radix`** — ct × ct END TO END with the tensor in ANY radix `rbT ≤ 60` (the tensor digits `≤ 3·(2^rbT − 1)` must fit the
+conversion's head-room), not necessarily the tensor key's: `glwe_tensor_apply` then `glwe_tensor_relinearize` (which converts), every rank. -/
+theorem glwe_mul_decrypts_any_radix (big128 : Bool) (N rbT rsT off b : Nat) (a bb : List Col) (aK bK : Nat) (res0T : List Col)
+    (g : GGLWE) (rb rs : Nat) (res0 : List Col) (sk skG : List Poly) (σ : ℕ → Ks.R N) (E : ℕ → ℕ → Ks.R N)
+    (H Da Dm : Int) (sa sb cols : Nat) (hN : 0 < N)
+    (hcols : a.length = cols) (hcb : bb.length = cols) (hc1 : 1 ≤ cols)
+    (ha : ∀ x ∈ a, x.length = sa ∧ ∀ l ∈ x, l.length = N) (hbb : ∀ x ∈ bb, x.length = sb ∧ ∀ l ∈ x, l.length = N)
+    (hsa : 1 ≤ sa) (hsb : 1 ≤ sb) (hhi : (cnvOffsetSplit b off).1 ≤ sa + sb - 1)
+    (hr0 : res0T.length = (cols + 1) * cols / 2)
+    (hrbT1 : 1 ≤ rbT) (hrbT : rbT ≤ 60) (hb1 : 1 ≤ b) (hb : b ≤ 62) (hH0 : 0 ≤ H) (hH : H + 8 ≤ 2 ^ (bitsOf big128 - 2))
+    (haccD : ∀ i, i < cols → ∀ l ∈ Hal.cnvApplyCol N (limbBoundWithOffset (sa + sb - (cnvOffsetSplit b off).1) rsT rbT b (cnvOffsetSplit b off).2)
+        (cnvOffsetSplit b off).1 ((prepAll N (msbMaskBottomLimb b aK) a).getD i []) ((prepAll N (msbMaskBottomLimb b bK) bb).getD i []),
+        ∀ v ∈ l, |v| ≤ H)
+    (haccP : ∀ i j, i < j → j < cols → ∀ l ∈ Hal.cnvApplyCol N (limbBoundWithOffset (sa + sb - (cnvOffsetSplit b off).1) rsT rbT b (cnvOffsetSplit b off).2)
+        (cnvOffsetSplit b off).1
+        (Hal.colAdd N ((prepAll N (msbMaskBottomLimb b aK) a).getD i []) ((prepAll N (msbMaskBottomLimb b aK) a).getD j []))
+        (Hal.colAdd N ((prepAll N (msbMaskBottomLimb b bK) bb).getD i []) ((prepAll N (msbMaskBottomLimb b bK) bb).getD j [])),
+        ∀ v ∈ l, |v| ≤ H)
+    (hskl : skG.length = (cols + 1) * cols / 2 - 1) (hσ0 : σ 0 = 1)
+    (hτ : ∀ i j, i ≤ j → j < cols → 0 < cix cols i j → Ks.ι N (skG.getD (cix cols i j - 1) []) = σ i * σ j)
+    (hsk : cols - 1 ≤ sk.length) (hskG1 : ∀ k, k < cols - 1 → skG.getD k [] = sk.getD k [])
+    (hco : g.colsOut = cols) (hci : g.colsOut + g.colsIn = (cols + 1) * cols / 2)
+    (hrb1 : 1 ≤ rb) (hrb : rb ≤ 62) (hbt1 : 1 ≤ g.base2k) (hbt : g.base2k ≤ 62)
+    (hDa : if rbT = g.base2k then 3 * (2 ^ rbT - 1) ≤ Da else 2 ^ g.base2k - 1 ≤ Da) (hDm : 0 ≤ Dm)
+    (hadm : prodAdmissible (bitsOf big128) g.dsize g.colsIn g.dnum N Da Dm Da)
+    (hgd : ∀ row ∈ g.cells, ∀ c ∈ row, ∀ l ∈ c, ∀ x ∈ l, |x| ≤ Dm)
+    (hd : 1 ≤ g.dsize) (hn : g.n = N) (h0 : shapeOk g.n g.colsOut g.size res0 = true) (hM : ∀ j q, (g.toPMat.entry j q).length = N)
+    (hS : g.dnum * g.dsize ≤ g.size)
+    (hcov1 : epConvSize rsT rbT g.base2k ≤ g.size) (hcov2 : epConvSize rsT rbT g.base2k ≤ g.dnum * g.dsize)
+    (hkey : ∀ i, i < g.colsIn → ∀ r, r < g.dnum →
+      Gadget.val ((2 : Ks.R N) ^ g.base2k) g.size (Ks.keyPhase N sk g.toPMat i r)
+        = 1 * Ks.ι N (skG.getD (cols - 1 + i) []) * ((2 : Ks.R N) ^ g.base2k) ^ (g.size - (r + 1) * g.dsize) + E i r) :
+    ∃ T res T', tensorApply false big128 N rbT rsT off b a aK bb bK res0T = some T ∧
+      relinearize big128 N rb rs T rbT g g.size res0 = some res ∧ C02L.GWF N (Ks.mkCt rb N res) ∧
+      (∀ c ∈ res, ∀ l ∈ c, ∀ x ∈ l, |x| ≤ 2 ^ rb - 1) ∧
+      TensorSpec N rbT rsT off b a bb aK bK skG σ sa sb cols T ∧
+      ∃ (En : Poly) (Qr : Ks.R N), En.length = N ∧
+        normInf En ≤ (1 + C02L.snorm (min (cols - 1) sk.length) sk) * C02.normTol (rb * rs) (g.base2k * g.size) ∧
+        (2 : Ks.R N) ^ (rbT * rsT + g.base2k * g.size) * Ks.ι N (C02L.valP rb N (Core.Ops.phase sk (Ks.mkCt rb N res)))
+          = (2 : Ks.R N) ^ (rb * rs) *
+              ((2 : Ks.R N) ^ (g.base2k * g.size) * Ks.ι N (C02L.valP rbT N (Core.Ops.phase skG (Ks.mkCt rbT N T)))
+                + (2 : Ks.R N) ^ (rbT * rsT) * relinErr N sk (relinInput N T' g) g ((2 : Ks.R N) ^ g.base2k) E)
+            + (2 : Ks.R N) ^ (rbT * rsT) * Ks.ι N En
+            + (2 : Ks.R N) ^ (rbT * rsT + rb * rs + g.base2k * g.size) * Qr := by
+  obtain ⟨T, hT, hspec⟩ := tensor_apply_decrypts big128 N rbT rsT off b a bb aK bK res0T skG σ H sa sb cols hN hcols hcb hc1 ha hbb hsa hsb hhi
+    hr0 hrbT1 (by omega) hb1 hb hH0 hH haccD haccP hskl hσ0 hτ
+  obtain ⟨hTlen, hTwf, hTdig, hrest⟩ := hspec
+  have hTlen' : T.length = g.colsOut + g.colsIn := by rw [hTlen, hci]
+  have hY0 : (0 : Int) ≤ 3 * (2 ^ rbT - 1) := by
+    have : (1 : Int) ≤ 2 ^ rbT := one_le_pow₀ (by norm_num)
+    linarith
+  have hHin : 3 * ((2 : Int) ^ rbT - 1) + 8 ≤ 2 ^ 62 := by
+    have h1 : (2 : Int) ^ rbT ≤ 2 ^ 60 := pow_le_pow_right₀ (by norm_num) hrbT
+    have h2 : (2 : Int) ^ 62 = 4 * 2 ^ 60 := by norm_num
+    have h3 : (8 : Int) ≤ 2 ^ 60 := by norm_num
+    linarith
+  obtain ⟨res, T', hres, _, hgwf, hdig, En, Qr, hE, hnm, heq⟩ := relin_decrypts_any_radix big128 rb rs rbT rsT T g res0 sk skG E
+    (3 * (2 ^ rbT - 1)) Da Dm hN hTlen' (by omega) hTwf hTdig hY0 hHin hrb1 hrb hrbT1 (by omega) hbt1 hbt hDa hDm hadm hgd hd hn h0 hM hS
+    hcov1 hcov2 (by rw [hco]; exact hsk) (by rw [hskl, hTlen]) (by rw [hco]; exact hskG1) (by rw [hco]; exact hkey)
+  exact ⟨T, res, T', hT, hres, hgwf, hdig, ⟨hTlen, hTwf, hTdig, hrest⟩, En, Qr, hE, by rw [← hco]; exact hnm, heq⟩
+
+/-- tensor in radix `2^2` (4 limbs), tensor key `exTsk` in radix `2^4`: ct × ct across radices, every hypothesis discharged -/
+example : ∃ T res, tensorApply false false 1 2 4 4 4 [[[3], [0]], [[1], [0]]] 8 [[[2], [0]], [[1], [0]]] 8 (zeroCols 1 3 4) = some T ∧
+    relinearize false 1 4 3 T 2 exTsk exTsk.size (zeroCols 1 2 3) = some res ∧ C02L.GWF 1 (Ks.mkCt 4 1 res) := by
+  obtain ⟨T, res, T', h1, h2, h3, _⟩ := glwe_mul_decrypts_any_radix false 1 2 4 4 4 [[[3], [0]], [[1], [0]]] [[[2], [0]], [[1], [0]]] 8 8 (zeroCols 1 3 4)
+    exTsk 4 3 (zeroCols 1 2 3) [[2]] [[2], Hal.negMul [2] [2]] (fun i => if i = 0 then 1 else Ks.ι 1 [2])
+    (fun i r => Gadget.val ((2 : Ks.R 1) ^ exTsk.base2k) exTsk.size (Ks.keyPhase 1 [[2]] exTsk.toPMat i r)
+      - 1 * Ks.ι 1 (([[2], Hal.negMul [2] [2]] : List Poly).getD (2 - 1 + i) []) * ((2 : Ks.R 1) ^ exTsk.base2k) ^ (exTsk.size - (r + 1) * exTsk.dsize))
+    (2 ^ 61) 15 1 2 2 2 (by decide) rfl rfl (by decide)
+    (by decide) (by decide) (by decide) (by decide) (by decide) (by decide) (by decide) (by decide) (by decide) (by decide) (by decide) (by decide)
+    (by decide)
+    (by
+      intro i j hij hj
+      have h01 : i = 0 ∧ j = 1 := by omega
+      obtain ⟨rfl, rfl⟩ := h01
+      decide)
+    (by decide) rfl
+    (by
+      intro i j hij hj hpos
+      have hcases : (i = 0 ∧ j = 1) ∨ (i = 1 ∧ j = 1) := by
+        have hj2 : j < 2 := hj
+        have : ¬ (i = 0 ∧ j = 0) := by
+          rintro ⟨rfl, rfl⟩; simp [cix, colIdx] at hpos
+        omega
+      rcases hcases with ⟨rfl, rfl⟩ | ⟨rfl, rfl⟩
+      · have e : cix 2 0 1 - 1 = 0 := by decide
+        rw [e]; simp
+      · have e : cix 2 1 1 - 1 = 1 := by decide
+        rw [e]
+        show Ks.ι 1 (Hal.negMul [2] [2]) = _
+        rw [Ks.ι_negMul 1 _ _ rfl (by decide)]; simp)
+    (by decide)
+    (by intro k hk; have h0 : k = 0 := by omega
+        subst h0; rfl)
+    rfl (by decide) (by decide) (by decide) (by decide) (by decide) (by decide) (by decide) (by decide) (by decide +kernel)
+    (by decide) rfl (by decide) (Ks.entry_length exTsk.toPMat 1 rfl (by decide +kernel)) (by decide) (by decide) (by decide)
+    (by intro i _ r _; exact (add_sub_cancel _ _).symm)
+  exact ⟨T, res, h1, h2, h3⟩
+
+/-! ## Noise in closed form -/
+
+/-- **`negMul_norm1_le`** — `‖p ⋆ q‖₁ ≤ ‖p‖₁·‖q‖₁` for the exact negacyclic product (the 1/1 companion of C01's `‖p ⋆ q‖_∞ ≤ ‖p‖₁·‖q‖_∞`):
+the weight of a product of secrets `s_i ⋆ s_j` is at most the product of the weights. -/
+theorem negMul_norm1_le (p q : Poly) : norm1 (Hal.negMul p q) ≤ norm1 p * norm1 q := norm1_negMul_le p q
+
+example : norm1 (Hal.negMul [1, -1, 0, 1] [0, 1, 1, -1]) ≤ norm1 [1, -1, 0, 1] * norm1 [0, 1, 1, -1] := negMul_norm1_le _ _
+
+/-- **`tensor_noise_bound`** — `glwe_tensor_apply` with the residual sum COLLAPSED into one noise polynomial with a closed-form `‖·‖_∞` bound.
+With `σ_i = ι(sP i)` (`sP 0 = 1`, `sP (i+1) = s_i`), `w_i = ‖sP i‖₁`, `Hc` a bound of the full convolutions' coefficients
+(`mul_plain_headroom`: `sb·N·Da·Db`):
+`A·phase_{(s,s⊗s)}(T) = K·β·(Σσ_i val(a'_i))·(Σσ_j val(b'_j)) + ι(errT) + A'·M·Qa − K·β^F·Qb`,
+`‖errT‖_∞ ≤ (Σ_i w_i² + 3·Σ_{i<j} w_i·w_j)·(2^{b(F−S)}·tol + 2^{rb·rs+lo⁺}·Hc·geo2(2^b, F−S))` (`Core.tensorNoiseBound`, `Core.cnvNoiseBound`):
+per normalised product one rounding `tol = normTolOff` (≤ one unit of the result's last limb, `0` when nothing is cut) plus the dropped limbs of the
+truncated convolution (`Σ_{m<F−S} β^m ≤ 2β^{F−S−1}` limbs' worth of `Hc`), weighted by the secret products (`negMul_norm1_le`). -/
+theorem tensor_noise_bound (big128 : Bool) (N rb rs off b : Nat) (a bb : List Col) (aK bK : Nat) (res0 : List Col) (skG : List Poly)
+    (sP : ℕ → Poly) (Hc : Int) (sa sb cols : Nat) (hN : 0 < N)
+    (hcols : a.length = cols) (hcb : bb.length = cols) (hc1 : 1 ≤ cols)
+    (ha : ∀ x ∈ a, x.length = sa ∧ ∀ l ∈ x, l.length = N) (hbb : ∀ x ∈ bb, x.length = sb ∧ ∀ l ∈ x, l.length = N)
+    (hsa : 1 ≤ sa) (hsb : 1 ≤ sb) (hhi : (cnvOffsetSplit b off).1 ≤ sa + sb - 1)
+    (hr0 : res0.length = (cols + 1) * cols / 2)
+    (hrb1 : 1 ≤ rb) (hrb : rb ≤ 61) (hb1 : 1 ≤ b) (hb : b ≤ 62) (hH0 : 0 ≤ Hc) (hH : Hc + 8 ≤ 2 ^ (bitsOf big128 - 2))
+    (hfullD : ∀ i, i < cols → ∀ l ∈ Hal.cnvApplyCol N (sa + sb - (cnvOffsetSplit b off).1) (cnvOffsetSplit b off).1
+        ((prepAll N (msbMaskBottomLimb b aK) a).getD i []) ((prepAll N (msbMaskBottomLimb b bK) bb).getD i []), ∀ v ∈ l, |v| ≤ Hc)
+    (hfullP : ∀ i j, i < j → j < cols → ∀ l ∈ Hal.cnvApplyCol N (sa + sb - (cnvOffsetSplit b off).1) (cnvOffsetSplit b off).1
+        (Hal.colAdd N ((prepAll N (msbMaskBottomLimb b aK) a).getD i []) ((prepAll N (msbMaskBottomLimb b aK) a).getD j []))
+        (Hal.colAdd N ((prepAll N (msbMaskBottomLimb b bK) bb).getD i []) ((prepAll N (msbMaskBottomLimb b bK) bb).getD j [])),
+        ∀ v ∈ l, |v| ≤ Hc)
+    (hskl : skG.length = (cols + 1) * cols / 2 - 1) (hsP : ∀ i, (sP i).length = N) (hσ0 : Ks.ι N (sP 0) = 1)
+    (hτ : ∀ i j, i ≤ j → j < cols → 0 < cix cols i j → Ks.ι N (skG.getD (cix cols i j - 1) []) = Ks.ι N (sP i) * Ks.ι N (sP j)) :
+    ∃ T, tensorApply false big128 N rb rs off b a aK bb bK res0 = some T ∧ T.length = (cols + 1) * cols / 2 ∧ (∀ c ∈ T, C02L.ColWF N rs c) ∧
+      (∀ c ∈ T, ∀ l ∈ c, ∀ v ∈ l, |v| ≤ 3 * (2 ^ rb - 1)) ∧
+      ∃ (errT : Poly) (Qa Qb : Ks.R N), errT.length = N ∧
+        normInf errT ≤ tensorNoiseBound cols (fun i => norm1 (sP i))
+          (cnvNoiseBound b rb rs (cnvOffsetSplit b off).2 (sa + sb - (cnvOffsetSplit b off).1)
+            (limbBoundWithOffset (sa + sb - (cnvOffsetSplit b off).1) rs rb b (cnvOffsetSplit b off).2)
+            (normTolOff (rb * rs) (b * limbBoundWithOffset (sa + sb - (cnvOffsetSplit b off).1) rs rb b (cnvOffsetSplit b off).2) (cnvOffsetSplit b off).2) Hc) ∧
+        (((2 : Ks.R N) ^ b) ^ (sa + sb - (cnvOffsetSplit b off).1 - limbBoundWithOffset (sa + sb - (cnvOffsetSplit b off).1) rs rb b (cnvOffsetSplit b off).2)
+            * (2 : Ks.R N) ^ (b * limbBoundWithOffset (sa + sb - (cnvOffsetSplit b off).1) rs rb b (cnvOffsetSplit b off).2 + (-(cnvOffsetSplit b off).2).toNat))
+          * Ks.ι N (C02L.valP rb N (Core.Ops.phase skG (Ks.mkCt rb N T)))
+          = ((2 : Ks.R N) ^ (rb * rs) * (2 : Ks.R N) ^ (cnvOffsetSplit b off).2.toNat) * ((2 : Ks.R N) ^ b)
+              * ((∑ i ∈ Finset.range cols, Ks.ι N (sP i) * colVal N ((2 : Ks.R N) ^ b) ((prepAll N (msbMaskBottomLimb b aK) a).getD i []))
+                * (∑ j ∈ Finset.range cols, Ks.ι N (sP j) * colVal N ((2 : Ks.R N) ^ b) ((prepAll N (msbMaskBottomLimb b bK) bb).getD j [])))
+            + Ks.ι N errT
+            + (((2 : Ks.R N) ^ b) ^ (sa + sb - (cnvOffsetSplit b off).1 - limbBoundWithOffset (sa + sb - (cnvOffsetSplit b off).1) rs rb b (cnvOffsetSplit b off).2)
+                * (2 : Ks.R N) ^ (rb * rs + (b * limbBoundWithOffset (sa + sb - (cnvOffsetSplit b off).1) rs rb b (cnvOffsetSplit b off).2 + (-(cnvOffsetSplit b off).2).toNat))) * Qa
+            - ((2 : Ks.R N) ^ (rb * rs) * (2 : Ks.R N) ^ (cnvOffsetSplit b off).2.toNat * ((2 : Ks.R N) ^ b) ^ (sa + sb - (cnvOffsetSplit b off).1)) * Qb :=
+  tensorApply_noise big128 N rb rs off b a bb aK bK res0 skG sP Hc sa sb cols hN hcols hcb hc1 ha hbb hsa hsb hhi hr0 hrb1 hrb hb1 hb hH0 hH
+    hfullD hfullP hskl hsP hσ0 hτ
+
+/-- rank 1, grouped secret `[s, s⋆s]`, `sP = (1, s)` -/
+example : ∃ T, tensorApply false false 1 4 2 4 4 [[[3], [0]], [[1], [0]]] 8 [[[2], [0]], [[1], [0]]] 8 (zeroCols 1 3 2) = some T ∧ T.length = 3 := by
+  obtain ⟨T, h1, h2, _⟩ := tensor_noise_bound false 1 4 2 4 4 [[[3], [0]], [[1], [0]]] [[[2], [0]], [[1], [0]]] 8 8 (zeroCols 1 3 2)
+    [[2], Hal.negMul [2] [2]] (fun i => if i = 0 then [1] else [2]) (2 ^ 61) 2 2 2 (by decide) rfl rfl (by decide)
+    (by decide) (by decide) (by decide) (by decide) (by decide) (by decide) (by decide) (by decide) (by decide) (by decide) (by decide) (by decide)
+    (by decide)
+    (by
+      intro i j hij hj
+      have h01 : i = 0 ∧ j = 1 := by omega
+      obtain ⟨rfl, rfl⟩ := h01
+      decide)
+    (by decide) (by intro i; by_cases h : i = 0 <;> simp [h])
+    (by show Ks.ι 1 [1] = 1; unfold Ks.ι; simp [toPoly])
+    (by
+      intro i j hij hj hpos
+      have hcases : (i = 0 ∧ j = 1) ∨ (i = 1 ∧ j = 1) := by
+        have hj2 : j < 2 := hj
+        have : ¬ (i = 0 ∧ j = 0) := by
+          rintro ⟨rfl, rfl⟩; simp [cix, colIdx] at hpos
+        omega
+      rcases hcases with ⟨rfl, rfl⟩ | ⟨rfl, rfl⟩
+      · have e : cix 2 0 1 - 1 = 0 := by decide
+        rw [e]
+        show Ks.ι 1 [2] = Ks.ι 1 [1] * Ks.ι 1 [2]
+        have : Ks.ι 1 [1] = 1 := by unfold Ks.ι; simp [toPoly]
+        rw [this, one_mul]
+      · have e : cix 2 1 1 - 1 = 1 := by decide
+        rw [e]
+        show Ks.ι 1 (Hal.negMul [2] [2]) = Ks.ι 1 [2] * Ks.ι 1 [2]
+        rw [Ks.ι_negMul 1 _ _ rfl (by decide)])
+  exact ⟨T, h1, h2⟩
+
+/-- the closed-form bounds instantiated on the crate's parameter sets (secret of weight `‖s‖₁ ≤ 64`, rank 1, three limbs per operand,
+`cnv_offset = 2·base2k`), in units `A = 2^{b(F−S)}·2^{b·S}` of the tensor's last limb: bench core (`N = 4096`, `b = 18`) at most `2^45` units, CKKS
+(`N = 4096`, `b = 52`) at most `2^79` units — the worst-case bound is dominated by the dropped limbs of the truncated convolution
+(`Hc·2β^{F−S−1}` per product), as the correspondence oracle's bound is. -/
+example : tensorNoiseBound 2 (fun i => if i = 0 then 1 else 64)
+      (cnvNoiseBound 18 18 3 0 5 3 (normTolOff (18 * 3) (18 * 3) 0) (3 * (4096 * 2 ^ 18 * 2 ^ 18)))
+      ≤ 2 ^ 45 * (2 ^ (18 * (5 - 3)) * 2 ^ (18 * 3)) ∧
+    tensorNoiseBound 2 (fun i => if i = 0 then 1 else 64)
+      (cnvNoiseBound 52 52 3 0 5 3 (normTolOff (52 * 3) (52 * 3) 0) (3 * (4096 * 2 ^ 52 * 2 ^ 52)))
+      ≤ 2 ^ 79 * (2 ^ (52 * (5 - 3)) * 2 ^ (52 * 3)) := by decide
+
+/-- closed-form noise bound of the ciphertext × ciphertext product (tensor key `dsize ≤ 2`): tensor noise, gadget error
+`pairs·dnum·(Σ_{di<dsize} 2^{bt·di})·N·3(2^bt−1)·BE` (`BE` = bound of the tensor-key errors), final rounding -/
+def glweMulNoiseBound (N cols : Nat) (w : ℕ → Int) (wsum : Int) (b bt rsT rb rs : Nat) (lo : Int) (F Sd : Nat) (Hc : Int)
+    (pairs dnum dsize S : Nat) (BE : Int) : Int :=
+  2 ^ (rb * rs) * 2 ^ (bt * (S - rsT)) *
+      tensorNoiseBound cols w (cnvNoiseBound b bt rsT lo F Sd (normTolOff (bt * rsT) (b * Sd) lo) Hc)
+    + 2 ^ (b * (F - Sd)) * 2 ^ (b * Sd + (-lo).toNat) * 2 ^ (rb * rs) *
+        ((pairs : Int) * ((dnum : Int) * ((∑ di ∈ Finset.range dsize, (2 : Int) ^ (bt * di)) * ((N : Int) * (3 * (2 ^ bt - 1))) * BE)))
+    + 2 ^ (b * (F - Sd)) * 2 ^ (b * Sd + (-lo).toNat) * ((1 + wsum) * C02.normTol (rb * rs) (bt * S))
+
+/-- **`glwe_mul_noise_bound`** — the ciphertext × ciphertext product with ALL noise collapsed into one polynomial with a closed-form bound
+(`glweMulNoiseBound`), tensor key `dsize ≤ 2` (nothing is dropped by the gadget: the crate's core / CKKS sets use `dsize = 1`), key errors given as
+polynomials `EL` with `‖EL‖_∞ ≤ BE`:
+`A·2^{bt·S}·phase_s(res) = 2^{rb·rs}·β^{S−rsT}·K·β·(Σσ_i val(a'_i))·(Σσ_j val(b'_j)) + ι(Noise) + C₁Q₁ − C₂Q₂ − C₃Q₃ + C₄Q₄` with explicit
+multiples of the four moduli, and `‖Noise‖_∞ ≤ 2^{rb·rs}·2^{bt(S−rsT)}·tensorNoiseBound + A·2^{rb·rs}·pairs·dnum·(Σ_{di<dsize}2^{bt·di})·N·3(2^bt−1)·BE
++ A·(1+Σ‖s_i‖₁)·normTol`. -/
+theorem glwe_mul_noise_bound (big128 : Bool) (N rsT off b : Nat) (a bb : List Col) (aK bK : Nat) (res0T : List Col)
+    (g : GGLWE) (rb rs : Nat) (res0 : List Col) (sk skG : List Poly) (sP : ℕ → Poly) (EL : ℕ → ℕ → Poly)
+    (Hc Dm BE : Int) (sa sb cols : Nat) (hN : 0 < N)
+    (hcols : a.length = cols) (hcb : bb.length = cols) (hc1 : 1 ≤ cols)
+    (ha : ∀ x ∈ a, x.length = sa ∧ ∀ l ∈ x, l.length = N) (hbb : ∀ x ∈ bb, x.length = sb ∧ ∀ l ∈ x, l.length = N)
+    (hsa : 1 ≤ sa) (hsb : 1 ≤ sb) (hhi : (cnvOffsetSplit b off).1 ≤ sa + sb - 1)
+    (hr0 : res0T.length = (cols + 1) * cols / 2)
+    (hbt1 : 1 ≤ g.base2k) (hbt : g.base2k ≤ 61) (hb1 : 1 ≤ b) (hb : b ≤ 62) (hH0 : 0 ≤ Hc) (hH : Hc + 8 ≤ 2 ^ (bitsOf big128 - 2))
+    (hfullD : ∀ i, i < cols → ∀ l ∈ Hal.cnvApplyCol N (sa + sb - (cnvOffsetSplit b off).1) (cnvOffsetSplit b off).1
+        ((prepAll N (msbMaskBottomLimb b aK) a).getD i []) ((prepAll N (msbMaskBottomLimb b bK) bb).getD i []), ∀ v ∈ l, |v| ≤ Hc)
+    (hfullP : ∀ i j, i < j → j < cols → ∀ l ∈ Hal.cnvApplyCol N (sa + sb - (cnvOffsetSplit b off).1) (cnvOffsetSplit b off).1
+        (Hal.colAdd N ((prepAll N (msbMaskBottomLimb b aK) a).getD i []) ((prepAll N (msbMaskBottomLimb b aK) a).getD j []))
+        (Hal.colAdd N ((prepAll N (msbMaskBottomLimb b bK) bb).getD i []) ((prepAll N (msbMaskBottomLimb b bK) bb).getD j [])),
+        ∀ v ∈ l, |v| ≤ Hc)
+    (hskl : skG.length = (cols + 1) * cols / 2 - 1) (hsP : ∀ i, (sP i).length = N) (hσ0 : Ks.ι N (sP 0) = 1)
+    (hτ : ∀ i j, i ≤ j → j < cols → 0 < cix cols i j → Ks.ι N (skG.getD (cix cols i j - 1) []) = Ks.ι N (sP i) * Ks.ι N (sP j))
+    (hsk : cols - 1 ≤ sk.length) (hskG1 : ∀ k, k < cols - 1 → skG.getD k [] = sk.getD k [])
+    (hco : g.colsOut = cols) (hci : g.colsOut + g.colsIn = (cols + 1) * cols / 2) (hci0 : 1 ≤ g.colsIn)
+    (hrb1 : 1 ≤ rb) (hrb : rb ≤ 62) (hDm : 0 ≤ Dm)
+    (hadm : prodAdmissible (bitsOf big128) g.dsize g.colsIn g.dnum N (3 * (2 ^ g.base2k - 1)) Dm (3 * (2 ^ g.base2k - 1)))
+    (hgd : ∀ row ∈ g.cells, ∀ c ∈ row, ∀ l ∈ c, ∀ x ∈ l, |x| ≤ Dm)
+    (hd : 1 ≤ g.dsize) (hd2 : g.dsize ≤ 2) (hn : g.n = N) (h0 : shapeOk g.n g.colsOut g.size res0 = true)
+    (hM : ∀ j q, (g.toPMat.entry j q).length = N)
+    (hS : g.dnum * g.dsize ≤ g.size) (hcov1 : rsT ≤ g.size) (hcov2 : rsT ≤ g.dnum * g.dsize)
+    (hEL : ∀ i r, (EL i r).length = N) (hBE : ∀ i r, normInf (EL i r) ≤ BE)
+    (hkey : ∀ i, i < g.colsIn → ∀ r, r < g.dnum →
+      Gadget.val ((2 : Ks.R N) ^ g.base2k) g.size (Ks.keyPhase N sk g.toPMat i r)
+        = 1 * Ks.ι N (skG.getD (cols - 1 + i) []) * ((2 : Ks.R N) ^ g.base2k) ^ (g.size - (r + 1) * g.dsize) + Ks.ι N (EL i r)) :
+    ∃ T res, tensorApply false big128 N g.base2k rsT off b a aK bb bK res0T = some T ∧
+      relinearize big128 N rb rs T g.base2k g g.size res0 = some res ∧ C02L.GWF N (Ks.mkCt rb N res) ∧
+      ∃ (Noise : Poly) (Q1 Q2 Q3 Q4 : Ks.R N), Noise.length = N ∧
+        normInf Noise ≤ glweMulNoiseBound N cols (fun i => norm1 (sP i)) (C02L.snorm (min (cols - 1) sk.length) sk) b g.base2k rsT rb rs
+          (cnvOffsetSplit b off).2 (sa + sb - (cnvOffsetSplit b off).1)
+          (limbBoundWithOffset (sa + sb - (cnvOffsetSplit b off).1) rsT g.base2k b (cnvOffsetSplit b off).2) Hc
+          g.colsIn g.dnum g.dsize g.size BE ∧
+        (((2 : Ks.R N) ^ b) ^ (sa + sb - (cnvOffsetSplit b off).1 - limbBoundWithOffset (sa + sb - (cnvOffsetSplit b off).1) rsT g.base2k b (cnvOffsetSplit b off).2)
+            * (2 : Ks.R N) ^ (b * limbBoundWithOffset (sa + sb - (cnvOffsetSplit b off).1) rsT g.base2k b (cnvOffsetSplit b off).2 + (-(cnvOffsetSplit b off).2).toNat))
+          * ((2 : Ks.R N) ^ (g.base2k * g.size) * Ks.ι N (C02L.valP rb N (Core.Ops.phase sk (Ks.mkCt rb N res))))
+          = (2 : Ks.R N) ^ (rb * rs) * ((2 : Ks.R N) ^ g.base2k) ^ (g.size - rsT)
+              * (((2 : Ks.R N) ^ (g.base2k * rsT) * (2 : Ks.R N) ^ (cnvOffsetSplit b off).2.toNat) * ((2 : Ks.R N) ^ b)
+                * ((∑ i ∈ Finset.range cols, Ks.ι N (sP i) * colVal N ((2 : Ks.R N) ^ b) ((prepAll N (msbMaskBottomLimb b aK) a).getD i []))
+                  * (∑ j ∈ Finset.range cols, Ks.ι N (sP j) * colVal N ((2 : Ks.R N) ^ b) ((prepAll N (msbMaskBottomLimb b bK) bb).getD j []))))
+            + Ks.ι N Noise
+            + (2 : Ks.R N) ^ (rb * rs) * ((2 : Ks.R N) ^ g.base2k) ^ (g.size - rsT) *
+                (((2 : Ks.R N) ^ b) ^ (sa + sb - (cnvOffsetSplit b off).1 - limbBoundWithOffset (sa + sb - (cnvOffsetSplit b off).1) rsT g.base2k b (cnvOffsetSplit b off).2)
+                  * (2 : Ks.R N) ^ (g.base2k * rsT + (b * limbBoundWithOffset (sa + sb - (cnvOffsetSplit b off).1) rsT g.base2k b (cnvOffsetSplit b off).2 + (-(cnvOffsetSplit b off).2).toNat))) * Q1
+            - (2 : Ks.R N) ^ (rb * rs) * ((2 : Ks.R N) ^ g.base2k) ^ (g.size - rsT) *
+                ((2 : Ks.R N) ^ (g.base2k * rsT) * (2 : Ks.R N) ^ (cnvOffsetSplit b off).2.toNat * ((2 : Ks.R N) ^ b) ^ (sa + sb - (cnvOffsetSplit b off).1)) * Q2
+            - (2 : Ks.R N) ^ (rb * rs) *
+                (((2 : Ks.R N) ^ b) ^ (sa + sb - (cnvOffsetSplit b off).1 - limbBoundWithOffset (sa + sb - (cnvOffsetSplit b off).1) rsT g.base2k b (cnvOffsetSplit b off).2)
+                  * (2 : Ks.R N) ^ (b * limbBoundWithOffset (sa + sb - (cnvOffsetSplit b off).1) rsT g.base2k b (cnvOffsetSplit b off).2 + (-(cnvOffsetSplit b off).2).toNat))
+                * ((2 : Ks.R N) ^ g.base2k) ^ g.size * Q3
+            + (((2 : Ks.R N) ^ b) ^ (sa + sb - (cnvOffsetSplit b off).1 - limbBoundWithOffset (sa + sb - (cnvOffsetSplit b off).1) rsT g.base2k b (cnvOffsetSplit b off).2)
+                  * (2 : Ks.R N) ^ (b * limbBoundWithOffset (sa + sb - (cnvOffsetSplit b off).1) rsT g.base2k b (cnvOffsetSplit b off).2 + (-(cnvOffsetSplit b off).2).toNat))
+                * (2 : Ks.R N) ^ (rb * rs + g.base2k * g.size) * Q4 := by
+  set hi := (cnvOffsetSplit b off).1 with hhi_def
+  set lo := (cnvOffsetSplit b off).2 with hlo_def
+  set Sd := limbBoundWithOffset (sa + sb - hi) rsT g.base2k b lo with hSd
+  obtain ⟨T, res, hT, hres, hgwf, _, _, En, Q, hE, hQ, hnm, heq⟩ := glwe_mul_decrypts big128 N rsT off b a bb aK bK res0T g rb rs res0 sk skG
+    (fun i => Ks.ι N (sP i)) (fun i r => Ks.ι N (EL i r)) Hc Dm sa sb cols hN hcols hcb hc1 ha hbb hsa hsb hhi hr0 hbt1 hbt hb1 hb hH0 hH
+    (fun i hic l hl => by
+      have hSle : Sd ≤ sa + sb - hi := limbBoundWithOffset_le _ _ _ _ _
+      rw [cnvApplyCol_take N Sd (sa + sb - hi) hi _ _ hSle] at hl
+      exact hfullD i hic l (List.mem_of_mem_take hl))
+    (fun i j hij hjc l hl => by
+      have hSle : Sd ≤ sa + sb - hi := limbBoundWithOffset_le _ _ _ _ _
+      rw [cnvApplyCol_take N Sd (sa + sb - hi) hi _ _ hSle] at hl
+      exact hfullP i j hij hjc l (List.mem_of_mem_take hl))
+    hskl hσ0 hτ hsk hskG1 hco hci hrb1 hrb hDm hadm hgd hd hn h0 hM hS hcov1 hcov2 hkey
+  obtain ⟨T', hT', hTlen, hTwf, hTdig, errT, Qa, Qb, herrl, herrb, hten⟩ := tensor_noise_bound big128 N g.base2k rsT off b a bb aK bK res0T skG
+    sP Hc sa sb cols hN hcols hcb hc1 ha hbb hsa hsb hhi hr0 hbt1 hbt hb1 hb hH0 hH hfullD hfullP hskl hsP hσ0 hτ
+  have hTT : T' = T := by rw [hT] at hT'; exact (Option.some.inj hT').symm
+  subst hTT
+  -- the gadget terms as polynomials
+  have hTlen' : T'.length = g.colsOut + g.colsIn := by rw [hTlen, hci]
+  have hT0 : 0 < T'.length := by rw [hTlen', hco]; omega
+  have hri := relinInput_eq N T' g rsT hbt1 hT0 hTlen' hTwf
+  have hcolT : ∀ k, k < T'.length → C02L.ColWF N rsT (T'.getD k []) ∧ ∀ l ∈ T'.getD k [], ∀ v ∈ l, |v| ≤ 3 * (2 ^ g.base2k - 1) := by
+    intro k hk
+    rw [List.getD_eq_getElem?_getD, List.getElem?_eq_getElem hk]
+    exact ⟨hTwf _ (List.getElem_mem hk), hTdig _ (List.getElem_mem hk)⟩
+  have hriwf : ∀ c ∈ relinInput N T' g, C02L.ColWF N rsT c := by
+    rw [hri]; intro c hc
+    obtain ⟨i, hi', rfl⟩ := List.mem_map.mp hc
+    exact (hcolT _ (by have := List.mem_range.mp hi'; omega)).1
+  have hrib : ∀ c ∈ relinInput N T' g, ∀ l ∈ c, ∀ x ∈ l, |x| ≤ 3 * (2 ^ g.base2k - 1) := by
+    rw [hri]; intro c hc
+    obtain ⟨i, hi', rfl⟩ := List.mem_map.mp hc
+    exact (hcolT _ (by have := List.mem_range.mp hi'; omega)).2
+  have hY0 : (0 : Int) ≤ 3 * (2 ^ g.base2k - 1) := by
+    have : (1 : Int) ≤ 2 ^ g.base2k := one_le_pow₀ (by norm_num)
+    linarith
+  have hrilen : (relinInput N T' g).length = g.colsIn := by simp [relinInput]
+  have h0' : 0 < (relinInput N T' g).length := by rw [hrilen]; omega
+  have hcs : ((relinInput N T' g).getD 0 []).length = rsT := by
+    rw [List.getD_eq_getElem?_getD, List.getElem?_eq_getElem h0']; exact (hriwf _ (List.getElem_mem h0')).1
+  have hpoly := relinErr_poly N hN sk (relinInput N T' g) g EL rsT hn (by omega) hM hriwf hcs hEL
+  have hdrop0 := Ks.ι_dropL_eq_zero N g.base2k sk (mkBuf g.n g.colsIn ((relinInput N T' g).getD 0 []).length (relinInput N T' g)) g.toKey hN
+    (by show 0 < g.colsOut; omega) hM hd2
+  have hA : ∀ c l, (limbOr0 N ((mkBuf g.n g.colsIn ((relinInput N T' g).getD 0 []).length (relinInput N T' g)).act c) l).length = N := by
+    intro c l; rw [hn, hcs]; exact mkBuf_act_limb N g.colsIn rsT _ hriwf c l
+  have hgb := Ks.normInf_errL_le_of_bounds N g.base2k (mkBuf g.n g.colsIn ((relinInput N T' g).getD 0 []).length (relinInput N T' g)) g.toKey EL
+    (3 * (2 ^ g.base2k - 1)) BE hA
+    (fun i l => by rw [hn]; exact mkBuf_act_normInf N g.colsIn _ _ _ hY0 hrib i l) hBE
+  have herrLlen := Ks.errL_length N g.base2k (mkBuf g.n g.colsIn ((relinInput N T' g).getD 0 []).length (relinInput N T' g)) g.toKey EL hEL
+  -- the total noise polynomial
+  refine ⟨T', res, hT, hres, hgwf,
+    Hal.polyAdd (Hal.polyAdd (Hal.polyScale (2 ^ (rb * rs) * 2 ^ (g.base2k * (g.size - rsT))) errT)
+      (Hal.polyScale (2 ^ (b * (sa + sb - hi - Sd)) * 2 ^ (b * Sd + (-lo).toNat) * 2 ^ (rb * rs))
+        (Ks.errL N g.base2k (mkBuf g.n g.colsIn ((relinInput N T' g).getD 0 []).length (relinInput N T' g)) g.toKey EL)))
+      (Hal.polyScale (2 ^ (b * (sa + sb - hi - Sd)) * 2 ^ (b * Sd + (-lo).toNat)) En),
+    Qa, Qb,
+    ∑ i ∈ Finset.range g.colsIn, Gadget.head ((2 : Ks.R N) ^ g.base2k) g.dsize g.dnum ((relinInput N T' g).getD 0 []).length
+      (Ks.inLimb N (mkBuf g.n g.colsIn ((relinInput N T' g).getD 0 []).length (relinInput N T' g)) i) (Ks.keyPhase N sk g.toPMat i),
+    Ks.ι N Q, ?_, ?_, ?_⟩
+  · rw [Hal.polyAdd_length, Hal.polyAdd_length, Hal.polyScale_length, Hal.polyScale_length, Hal.polyScale_length, herrl, herrLlen, hE]; simp
+  · unfold glweMulNoiseBound
+    refine (normInf_polyAdd_le _ _).trans (add_le_add ((normInf_polyAdd_le _ _).trans (add_le_add ?_ ?_)) ?_)
+    · rw [normInf_polyScale, abs_of_nonneg (by positivity)]
+      exact mul_le_mul_of_nonneg_left herrb (by positivity)
+    · rw [normInf_polyScale, abs_of_nonneg (by positivity)]
+      exact mul_le_mul_of_nonneg_left hgb (by positivity)
+    · rw [normInf_polyScale, abs_of_nonneg (by positivity)]
+      exact mul_le_mul_of_nonneg_left hnm (by positivity)
+  · unfold relinErr at heq
+    rw [hpoly, hdrop0] at heq
+    rw [Ks.ι_add N _ _ (by rw [Hal.polyAdd_length, Hal.polyScale_length, Hal.polyScale_length, Hal.polyScale_length, herrl, herrLlen, hE]; simp),
+      Ks.ι_add N _ _ (by rw [Hal.polyScale_length, Hal.polyScale_length, herrl, herrLlen]), ι_polyScale, ι_polyScale, ι_polyScale]
+    push_cast
+    have e1 : (2 : Ks.R N) ^ (g.base2k * (g.size - rsT)) = ((2 : Ks.R N) ^ g.base2k) ^ (g.size - rsT) := pow_mul _ _ _
+    have e2 : (2 : Ks.R N) ^ (b * (sa + sb - hi - Sd)) = ((2 : Ks.R N) ^ b) ^ (sa + sb - hi - Sd) := pow_mul _ _ _
+    rw [e1, e2]
+    linear_combination (((2 : Ks.R N) ^ b) ^ (sa + sb - hi - Sd) * (2 : Ks.R N) ^ (b * Sd + (-lo).toNat)) * heq
+      + ((2 : Ks.R N) ^ (rb * rs) * ((2 : Ks.R N) ^ g.base2k) ^ (g.size - rsT)) * hten
+
+/-- rank 1, one-pair tensor key `exTsk` (`dsize = 2`), key error := the one defined by the key equation (`Ks.keyErrL`), every hypothesis discharged -/
+example : ∃ T res, tensorApply false false 1 exTsk.base2k 2 4 4 [[[3], [0]], [[1], [0]]] 8 [[[2], [0]], [[1], [0]]] 8 (zeroCols 1 3 2) = some T ∧
+    relinearize false 1 4 3 T exTsk.base2k exTsk exTsk.size (zeroCols 1 2 3) = some res ∧ C02L.GWF 1 (Ks.mkCt 4 1 res) := by
+  obtain ⟨T, res, h1, h2, h3, _⟩ := glwe_mul_noise_bound false 1 2 4 4 [[[3], [0]], [[1], [0]]] [[[2], [0]], [[1], [0]]] 8 8 (zeroCols 1 3 2)
+    exTsk 4 3 (zeroCols 1 2 3) [[2]] [[2], Hal.negMul [2] [2]] (fun i => if i = 0 then [1] else [2])
+    (fun i r => if i = 0 ∧ r = 0 then Ks.keyErrL 1 4 [[2]] exTsk.toKey (fun _ => Hal.negMul [2] [2]) 0 0 else zeroP 1)
+    (2 ^ 61) 1 (2 ^ 40) 2 2 2 (by decide) rfl rfl (by decide)
+    (by decide) (by decide) (by decide) (by decide) (by decide) (by decide) (by decide) (by decide) (by decide) (by decide) (by decide) (by decide)
+    (by decide)
+    (by
+      intro i j hij hj
+      have h01 : i = 0 ∧ j = 1 := by omega
+      obtain ⟨rfl, rfl⟩ := h01
+      decide)
+    (by decide) (by intro i; by_cases h : i = 0 <;> simp [h])
+    (by show Ks.ι 1 [1] = 1; unfold Ks.ι; simp [toPoly])
+    (by
+      intro i j hij hj hpos
+      have hcases : (i = 0 ∧ j = 1) ∨ (i = 1 ∧ j = 1) := by
+        have hj2 : j < 2 := hj
+        have : ¬ (i = 0 ∧ j = 0) := by
+          rintro ⟨rfl, rfl⟩; simp [cix, colIdx] at hpos
+        omega
+      rcases hcases with ⟨rfl, rfl⟩ | ⟨rfl, rfl⟩
+      · have e : cix 2 0 1 - 1 = 0 := by decide
+        rw [e]
+        show Ks.ι 1 [2] = Ks.ι 1 [1] * Ks.ι 1 [2]
+        have : Ks.ι 1 [1] = 1 := by unfold Ks.ι; simp [toPoly]
+        rw [this, one_mul]
+      · have e : cix 2 1 1 - 1 = 1 := by decide
+        rw [e]
+        show Ks.ι 1 (Hal.negMul [2] [2]) = Ks.ι 1 [2] * Ks.ι 1 [2]
+        rw [Ks.ι_negMul 1 _ _ rfl (by decide)])
+    (by decide)
+    (by intro k hk; have h0 : k = 0 := by omega
+        subst h0; rfl)
+    rfl (by decide) (by decide) (by decide) (by decide) (by decide) (by decide) (by decide +kernel) (by decide) (by decide) rfl (by decide)
+    (Ks.entry_length exTsk.toPMat 1 rfl (by decide +kernel)) (by decide) (by decide) (by decide)
+    (by
+      intro i r
+      by_cases h : i = 0 ∧ r = 0
+      · simp only [h, and_self, if_true]
+        exact Ks.keyErrL_length 1 4 [[2]] exTsk.toKey _ 0 0 (by decide) (Ks.entry_length exTsk.toPMat 1 rfl (by decide +kernel)) (fun _ => by decide)
+      · simp only [h, if_false]; rfl)
+    (by
+      intro i r
+      by_cases h : i = 0 ∧ r = 0
+      · simp only [h, and_self, if_true]; decide +kernel
+      · simp only [h, if_false]; decide)
+    (by
+      intro i hi r hr
+      have hi0 : i = 0 := by
+        have : i < 1 := hi
+        omega
+      have hr0 : r = 0 := by
+        have : r < 1 := hr
+        omega
+      subst hi0; subst hr0
+      simp only [and_self, if_true]
+      have := Ks.keyErrL_spec 1 4 [[2]] exTsk.toKey (fun _ => Hal.negMul [2] [2]) 0 0 (by decide)
+        (Ks.entry_length exTsk.toPMat 1 rfl (by decide +kernel)) (fun _ => by decide)
+      rw [Ks.radix_eq] at this
+      rw [one_mul]
+      exact this)
+  exact ⟨T, res, h1, h2, h3⟩
+
+/-- the closed-form ct × ct bound on the bench-core set (`N = 4096`, `b = 18`, rank 1, `‖s‖₁ ≤ 64`, three limbs, tensor key `dnum = 3`, `dsize = 1`, key
+errors `‖EL‖_∞ ≤ 2^8`): at most `2^46` units of the result's last limb (unit `A·2^{bt·S}` of the left-hand side) -/
+example : glweMulNoiseBound 4096 2 (fun i => if i = 0 then 1 else 64) 64 18 18 3 18 3 0 5 3 (3 * (4096 * 2 ^ 18 * 2 ^ 18)) 1 3 1 3 (2 ^ 8)
+    ≤ 2 ^ 46 * (2 ^ (18 * (5 - 3)) * 2 ^ (18 * 3) * 2 ^ (18 * 3)) := by decide
 
 end C05
